@@ -860,6 +860,12 @@ impl<'a> Exec<'a> {
             }
             "decode_wire" => {
                 let bytes = self.ctx.wire(a(0)).map_err(|e| e.0)?;
+                // structural mutations must be rejected by the *envelope* decoder: unless the mutation is a
+                // CBOR-level quirk the evaluated bytes have to be well-formed dCBOR (else an expected error
+                // would be met for the wrong reason)
+                if !a(0).to_string().contains("\"quirk\"") && dcbor::CBOR::try_from_data(&bytes).is_err() {
+                    return Err(format!("evaluator produced malformed CBOR for {}", a(0)));
+                }
                 match var % 2 {
                     0 => res(Envelope::try_from_cbor_data(bytes)),
                     _ => match dcbor::CBOR::try_from_data(&bytes) {
